@@ -1006,3 +1006,63 @@ def rule_group_check_is_not_lookup(ctx):
                 ctx.violated("GROUPONLY", key, f.where(line), "%s validates `%s` with HAatom_group only and never looks it up: an id that was released (or never issued) with the right group bits is accepted" % (f.name, v))
     ctx.floor("GROUPONLY", 60, n, "(public routines that classify an id parameter with HAatom_group)")
     return n
+
+
+_CLOSERS = ("fclose", "close", "HI_CLOSE", "hi_close_stdio")
+
+
+def _is_rec_stream(a):
+    from .facts import kind, strip
+    a = strip(a)
+    if kind(a) == "addr":
+        a = strip(a[1])
+    return (mem_field(a) or (0, 0)) == ("filerec_t", "file")
+
+
+class _SwapStream(PathAnalysis):
+    """user: True once a replacement stream has been opened (fopen seen) on this path"""
+
+    def __init__(self, prog):
+        super().__init__(prog)
+        self.sites = {}
+
+    def init_user(self, func):
+        return False
+
+    def on_stmt(self, func, bid, idx, stmt, env, user):
+        u = user
+        for x in walk(stmt["e"]):
+            if x[0] == "call" and x[1] in ("fopen", "open", "HI_OPEN"):
+                u = True
+            elif x[0] == "call" and x[1] in _CLOSERS and x[3] and _is_rec_stream(x[3][0]):
+                line = stmt.get("l", 0)
+                self.sites[line] = self.sites.get(line, True) and u
+        return u
+
+
+def rule_replacement_opened_first(ctx):
+    """SWAPSTREAM (C13): all ids of an open file share one file record and its one OS stream.  A routine that *replaces* that stream
+    (Hopen upgrading a file that is open read-only to read/write) may close the old stream only after the replacement has been
+    opened: if it closes first and the open then fails, it returns FAIL to its caller and leaves every id that was already
+    issued on that file with a closed stream — the earlier, valid file id no longer designates a usable file."""
+    prog = ctx.prog
+    n = 0
+    for f in prog.lib_funcs():
+        if not f.rel.endswith("hfile.c"):
+            continue
+        closes = [c for _b, _i, _s, c in f.calls() if c[1] in _CLOSERS and c[3] and _is_rec_stream(c[3][0])]
+        stores = [x for _b, _i, _s, x in f.nodes(True) if x[0] == "asg" and x[1] == "=" and mem_field(x[2]) == ("filerec_t", "file") and kind(strip(x[3])) == "var"]
+        if not closes or not stores:
+            continue
+        a = _SwapStream(prog)
+        a.fails = fail_values(f, prog)
+        a.run(f)
+        for i, (line, ok) in enumerate(sorted(a.sites.items())):
+            n += 1
+            key = "SWAPSTREAM:%s#%d" % (f.name, i + 1)
+            if ok:
+                ctx.holds("SWAPSTREAM", key, f.where(line), "the record's stream is closed only on paths that have already opened its replacement", nontrivial=True)
+            else:
+                ctx.violated("SWAPSTREAM", key, f.where(line), "%s closes the file record's stream before the replacement stream has been opened: when that open fails the ids already issued on the file are left with a closed stream" % f.name)
+    ctx.floor("SWAPSTREAM", 1, n, "(routines that replace the stream of a live file record)")
+    return n
